@@ -90,6 +90,57 @@ type peerIdProvider struct {
 	srv    *httptest.Server
 	issuer string
 	k1, k2 *rsa.PrivateKey
+
+	mu        sync.Mutex
+	published string     // which keys jwks_uri serves now: k1 | k2 | k1k2 | none | fail (the request is answered 500)
+	clock     *peerClock // nil: real time
+}
+
+// the clock of C episodes: handed to go-oidc as oidc.Config.Now and used by the provider when it mints
+type peerClock struct {
+	mu  sync.Mutex
+	sec int64
+}
+
+func (c *peerClock) Now() time.Time {
+	c.mu.Lock()
+	defer c.mu.Unlock()
+	return time.Unix(c.sec, 0)
+}
+
+func (c *peerClock) advance(d int64) {
+	c.mu.Lock()
+	c.sec += d
+	c.mu.Unlock()
+}
+
+// unix seconds of "now" for minting and for the harness's own reading of a token
+func (p *peerIdProvider) now() int64 {
+	p.mu.Lock()
+	c := p.clock
+	p.mu.Unlock()
+	if c != nil {
+		return c.Now().Unix()
+	}
+	return time.Now().Unix()
+}
+
+func (p *peerIdProvider) set(published string, clock *peerClock) {
+	p.mu.Lock()
+	p.published, p.clock = published, clock
+	p.mu.Unlock()
+}
+
+func (p *peerIdProvider) setKeys(published string) bool {
+	switch published {
+	case "k1", "k2", "k1k2", "none", "fail":
+	default:
+		return false
+	}
+	p.mu.Lock()
+	p.published = published
+	p.mu.Unlock()
+	return true
 }
 
 var (
@@ -121,16 +172,34 @@ func peerIdP() *peerIdProvider {
 			})
 		})
 		mux.HandleFunc("/keys", func(w http.ResponseWriter, _ *http.Request) {
+			p.mu.Lock()
+			published := p.published
+			p.mu.Unlock()
+			if published == "fail" {
+				w.WriteHeader(http.StatusInternalServerError)
+				return
+			}
 			w.Header().Set("Content-Type", "application/json")
-			pub := p.k1.PublicKey
-			_ = json.NewEncoder(w).Encode(map[string]any{"keys": []map[string]string{{
-				"kty": "RSA", "alg": "RS256", "use": "sig", "kid": "k1",
-				"n": peerB64(pub.N.Bytes()), "e": peerB64(big.NewInt(int64(pub.E)).Bytes()),
-			}}})
+			keys := []map[string]string{}
+			jwk := func(kid string, k *rsa.PrivateKey) map[string]string {
+				pub := k.PublicKey
+				return map[string]string{
+					"kty": "RSA", "alg": "RS256", "use": "sig", "kid": kid,
+					"n": peerB64(pub.N.Bytes()), "e": peerB64(big.NewInt(int64(pub.E)).Bytes()),
+				}
+			}
+			if strings.Contains(published, "k1") {
+				keys = append(keys, jwk("k1", p.k1))
+			}
+			if strings.Contains(published, "k2") {
+				keys = append(keys, jwk("k2", p.k2))
+			}
+			_ = json.NewEncoder(w).Encode(map[string]any{"keys": keys})
 		})
 		mux.HandleFunc("/token", p.token)
 		p.srv = httptest.NewServer(mux)
 		p.issuer = p.srv.URL
+		p.published = "k1"
 		peerIdPInst = p
 	})
 	return peerIdPInst
@@ -163,7 +232,7 @@ func (p *peerIdProvider) mint(sub, aud, audx string, scope []string, iss, exp, n
 	case "empty":
 		return ""
 	}
-	now := time.Now().Unix()
+	now := p.now()
 	claims := map[string]any{"sub": sub, "iat": now}
 	if len(scope) > 0 {
 		claims["scope"] = strings.Join(scope, " ")
@@ -187,12 +256,20 @@ func (p *peerIdProvider) mint(sub, aud, audx string, scope []string, iss, exp, n
 		claims["exp"] = now + 3600
 	case "p":
 		claims["exp"] = now - 3600
+	case "s":
+		claims["exp"] = now + 3
+	case "e":
+		claims["exp"] = now
 	}
 	switch nbf {
 	case "p":
 		claims["nbf"] = now - 3600
 	case "s":
 		claims["nbf"] = now + 120
+	case "l":
+		claims["nbf"] = now + 300
+	case "m":
+		claims["nbf"] = now + 301
 	case "f":
 		claims["nbf"] = now + 3600
 	}
@@ -314,7 +391,7 @@ func (sp peerSpec) check(key string) string {
 	if err := json.Unmarshal(pb, &c); err != nil {
 		return "payload-json"
 	}
-	now := time.Now().Unix()
+	now := peerIdP().now()
 	if c.Sub != sp.client {
 		return "sub"
 	}
@@ -354,6 +431,14 @@ func (sp peerSpec) check(key string) string {
 		if c.Exp == nil || *c.Exp > now-3000 {
 			return "exp"
 		}
+	case "s":
+		if c.Exp == nil || *c.Exp < now+1 || *c.Exp > now+3 {
+			return "exp"
+		}
+	case "e":
+		if c.Exp == nil || *c.Exp < now-1 || *c.Exp > now {
+			return "exp"
+		}
 	default:
 		if c.Exp != nil {
 			return "exp"
@@ -372,12 +457,16 @@ func (sp peerSpec) check(key string) string {
 		if c.Nbf == nil || *c.Nbf < now+60 || *c.Nbf > now+180 {
 			return "nbf"
 		}
+	case "l", "m":
+		if c.Nbf == nil || *c.Nbf < now+298 || *c.Nbf > now+301 {
+			return "nbf"
+		}
 	case "f":
 		if c.Nbf == nil || *c.Nbf < now+3000 {
 			return "nbf"
 		}
 	}
-	// signature: RS256 by the published key over exactly header.payload
+	// signature: RS256 by the key the spec names over exactly header.payload
 	var h struct {
 		Alg string `json:"alg"`
 	}
@@ -385,11 +474,33 @@ func (sp peerSpec) check(key string) string {
 	_ = json.Unmarshal(hb, &h)
 	sig, _ := base64.RawURLEncoding.DecodeString(parts[2])
 	d := sha256.Sum256([]byte(parts[0] + "." + parts[1]))
-	good := h.Alg == "RS256" && rsa.VerifyPKCS1v15(&peerIdP().k1.PublicKey, crypto.SHA256, d[:], sig) == nil
-	if good != (sp.sigKnd == "k1") {
+	var hk struct {
+		Kid string `json:"kid"`
+	}
+	_ = json.Unmarshal(hb, &hk)
+	good1 := h.Alg == "RS256" && hk.Kid == "k1" && rsa.VerifyPKCS1v15(&peerIdP().k1.PublicKey, crypto.SHA256, d[:], sig) == nil
+	good2 := h.Alg == "RS256" && hk.Kid == "k2" && rsa.VerifyPKCS1v15(&peerIdP().k2.PublicKey, crypto.SHA256, d[:], sig) == nil
+	if good1 != (sp.sigKnd == "k1") || good2 != (sp.sigKnd == "k2") {
 		return "sig"
 	}
 	return ""
+}
+
+// the exp claim of a minted token (0 = none), read by the harness itself
+func peerTokenExp(key string) int64 {
+	parts := strings.Split(key, ".")
+	if len(parts) != 3 {
+		return 0
+	}
+	pb, err := base64.RawURLEncoding.DecodeString(parts[1])
+	if err != nil {
+		return 0
+	}
+	var c struct {
+		Exp int64 `json:"exp"`
+	}
+	_ = json.Unmarshal(pb, &c)
+	return c.Exp
 }
 
 func peerScopes(hb, wc bool) []v1.AuthScope {
@@ -844,6 +955,68 @@ func peerAuthExec(st *peerState, tok []string) (string, bool) {
 			return "minterr:key-set-without-scope", true
 		}
 		return st.doWork(cid, tr, rid, 0, wm.PrivilegeKey), true
+	case "omint":
+		// a token obtained through the real frpc side and kept under <tid> for (re)use by tlogin / tping / twork
+		sp := peerParseSpec(tok[2 : 2+peerSpecLen])
+		lm := &msg.Login{}
+		if err := sp.setter(nil).SetLogin(lm); err != nil {
+			return "seterr", true
+		}
+		if d := sp.check(lm.PrivilegeKey); d != "" {
+			return "minterr:" + d, true
+		}
+		st.toks[tok[1]] = lm.PrivilegeKey
+		if sp.exp == "s" {
+			if e := peerTokenExp(lm.PrivilegeKey); e > st.shortExp {
+				st.shortExp = e
+			}
+		}
+		return "-", true
+	case "tlogin":
+		raw, ok := st.toks[tok[6]]
+		if !ok {
+			return "notok", true
+		}
+		return st.doLogin(tok[1], tok[2], unhx(tok[3]), 0, raw, peerB(tok[4]), atoi(tok[5])), true
+	case "tping":
+		raw, ok := st.toks[tok[2]]
+		if !ok {
+			return "notok", true
+		}
+		return st.doPing(tok[1], 0, raw), true
+	case "twork":
+		raw, ok := st.toks[tok[4]]
+		if !ok {
+			return "notok", true
+		}
+		return st.doWork(tok[1], tok[2], st.ridref(tok[3]), 0, raw), true
+	case "okeys":
+		if !peerIdP().setKeys(tok[1]) {
+			return "badmode", true
+		}
+		// go-oidc stores a fetched key set a moment after handing it to the waiting verification (jwks.go
+		// keysFromRemote): let that settle before the next message
+		time.Sleep(time.Millisecond)
+		return "-", true
+	case "oclock":
+		d := int64(atoi(tok[1]))
+		if st.clock != nil {
+			st.clock.advance(d)
+			return "-", true
+		}
+		// real time (O episodes): only "long enough for every short-lived token to be expired by a full second"
+		if d < 5 {
+			return "badop", true
+		}
+		if st.shortExp > 0 {
+			if w := time.Until(time.Unix(st.shortExp+1, 0)); w > 0 {
+				if w > 6*time.Second {
+					w = 6 * time.Second
+				}
+				time.Sleep(w)
+			}
+		}
+		return "-", true
 	case "akset":
 		if st.gw == nil {
 			return "nogw", true
@@ -951,7 +1124,161 @@ func (g *peerGen) osubject() string {
 	return pick(g.rng, []string{"alice", "bob", "carol", "dave"})
 }
 
-func (g *peerGen) oidcEpisode(n int, lax bool) {
+func (g *peerGen) oidcEpisode(n int, lax bool) { g.oidcEpisodeM(n, lax, "O") }
+
+// the same episode with go-oidc's clock in the harness's hand: moments are exact (the very second of exp, the
+// very second nbf comes within the leeway) and cost nothing
+func (g *peerGen) clockEpisode(n int, lax bool) { g.oidcEpisodeM(n, lax, "C") }
+
+func (g *peerGen) okeys(mode string) {
+	g.pub = mode
+	g.op("okeys " + mode)
+}
+
+func peerSpecSet(spec string, idx int, val string) string {
+	f := strings.Fields(spec)
+	f[idx] = val
+	return strings.Join(f, " ")
+}
+
+// mint a token and keep it: good = one the server accepts now; exp / nbf / sig override the spec ("" = leave)
+func (g *peerGen) omint(good bool, client, exp, nbf, sig string) peerGenTok {
+	spec, acc := g.ospec(good, client)
+	if exp != "" {
+		spec = peerSpecSet(spec, 6, exp)
+	}
+	if nbf != "" {
+		spec = peerSpecSet(spec, 7, nbf)
+	}
+	if sig != "" {
+		spec = peerSpecSet(spec, 8, sig)
+	}
+	g.tokSeq++
+	t := peerGenTok{id: "t" + strconv.Itoa(g.tokSeq), spec: spec, accepted: acc, short: exp == "s" || exp == "e",
+		sub: unhx(strings.Fields(spec)[0])}
+	g.op(fmt.Sprintf("omint %s %s", t.id, spec))
+	g.toks = append(g.toks, t)
+	return t
+}
+
+// present a kept token: path 0 = Login on a new connection (returns its cid), 1 = Ping, 2 = NewWorkConn
+func (g *peerGen) tuse(t peerGenTok, path int, tr, target string) string {
+	switch path {
+	case 0:
+		cid := g.cid()
+		aap := g.rng.Intn(2)
+		g.op(fmt.Sprintf("tlogin %s %s %s %d %d %s", cid, tr, hx(""), aap, pick(g.rng, []int{0, 1}), t.id))
+		if t.accepted || (tr == "int" && aap == 1) {
+			g.logins = append(g.logins, cid)
+			if t.accepted {
+				g.subj = append(g.subj, t.sub)
+			}
+		}
+		return cid
+	case 1:
+		g.op(fmt.Sprintf("tping %s %s", target, t.id))
+	default:
+		ref := target
+		if !strings.HasPrefix(ref, "@") && !strings.HasPrefix(ref, "x") {
+			ref = "@" + ref
+		}
+		g.op(fmt.Sprintf("twork %s %s %s %s", g.cid(), tr, ref, t.id))
+	}
+	return ""
+}
+
+// the same raw token on all three paths, in random order, once or twice each
+func (g *peerGen) replayAll(t peerGenTok, victim string) {
+	for _, path := range g.rng.Perm(3) {
+		for j := 1 + g.rng.Intn(2); j > 0; j-- {
+			g.tuse(t, path, g.netTr(), victim)
+		}
+	}
+}
+
+// A token that was valid, was accepted on every path, and then stops being valid because time passes.
+// C episodes: exact boundaries (accepted in the second of exp, refused one second later).  O episodes: a token
+// that lives 3 s and a real wait.
+func (g *peerGen) expiryScenario(mode string) (peerGenTok, string) {
+	rng := g.rng
+	exp := "s"
+	if mode == "C" {
+		exp = pick(rng, []string{"s", "s", "e", "f"})
+	}
+	t := g.omint(true, "", exp, pick(rng, []string{"n", "p"}), "k1")
+	victim := g.tuse(t, 0, "tcp", "")
+	g.tuse(t, 1, "", victim)
+	g.tuse(t, 2, g.netTr(), victim)
+	g.dump()
+	if mode != "C" {
+		g.op("oclock 5")
+	} else {
+		life := map[string]int{"s": 3, "e": 0, "f": 3600}[exp]
+		if life > 0 && rng.Intn(2) == 0 {
+			// the last second of its life
+			g.op(fmt.Sprintf("oclock %d", life))
+			g.replayAll(t, victim)
+			g.op("oclock 1")
+		} else {
+			g.op(fmt.Sprintf("oclock %d", life+pick(rng, []int{1, 1, 2, 60, 4000})))
+		}
+	}
+	g.dump()
+	g.replayAll(t, victim)
+	g.dump()
+	return t, victim
+}
+
+// A token that was valid and stops being valid because the provider withdrew its signing key.  go-oidc goes on
+// accepting it with the cached key until something makes it fetch the key set again (a token signed with the new
+// key); after that it is refused, until the provider publishes the old key again.
+func (g *peerGen) rotationScenario() (peerGenTok, string) {
+	rng := g.rng
+	t := g.omint(true, "", "f", "n", "k1")
+	victim := g.tuse(t, 0, "tcp", "")
+	g.tuse(t, 1, "", victim)
+	g.tuse(t, 2, g.netTr(), victim)
+	g.dump()
+	g.okeys(pick(rng, []string{"k2", "k2", "none"}))
+	g.replayAll(t, victim) // still verified with the cached key
+	g.dump()
+	// a token signed with the new key: accepted when the provider publishes it, and in any case the key set is
+	// fetched again (unless cached already)
+	t2 := g.omint(true, "", "f", "n", "k2")
+	g.tuse(t2, 0, g.netTr(), "")
+	g.dump()
+	g.replayAll(t, victim)
+	g.dump()
+	return t, victim
+}
+
+// a siege with ONE stale token (expired / its key withdrawn) replayed on all three paths against one session, then
+// that session's heartbeat and work connection with a fresh token
+func (g *peerGen) staleSiege(t peerGenTok, victim string) {
+	rng := g.rng
+	g.dump()
+	for j := g.siegeLen(); j > 0; j-- {
+		switch r := rng.Intn(3); {
+		case r == 0 || (r == 1 && !g.ohb) || (r == 2 && !g.owc):
+			g.op(fmt.Sprintf("tlogin %s %s %s 1 0 %s", g.cid(), pick(rng, []string{"tcp", "tcp", "tcpn", g.netTr()}), hx(""), t.id))
+		case r == 1:
+			g.tuse(t, 1, "", victim)
+		default:
+			g.tuse(t, 2, pick(rng, []string{"tcp", "tcp", "tcpn", g.netTr()}), victim)
+		}
+	}
+	g.dump()
+	sig := "k1"
+	if !strings.Contains(g.pub, "k1") {
+		sig = "k2"
+	}
+	fresh := g.omint(true, t.sub, "f", "n", sig)
+	g.tuse(fresh, 1, "", victim)
+	g.tuse(fresh, 2, "tcp", victim)
+	g.dump()
+}
+
+func (g *peerGen) oidcEpisodeM(n int, lax bool, mode string) {
 	rng := g.rng
 	g.method = "O"
 	g.oaud = pick(rng, []string{"frps", "frps", "frps", ""})
@@ -974,10 +1301,57 @@ func (g *peerGen) oidcEpisode(n int, lax bool) {
 		}
 		return 0
 	}
-	g.op(fmt.Sprintf("reset O %d %d %s %d %d", b(g.ohb), b(g.owc), hx(g.oaud), b(g.oskipExp), b(g.oskipI)))
+	g.hb, g.wc, g.pub = g.ohb, g.owc, "k1"
+	g.op(fmt.Sprintf("reset %s %d %d %s %d %d", mode, b(g.ohb), b(g.owc), hx(g.oaud), b(g.oskipExp), b(g.oskipI)))
 	g.ologin(true, "tcp")
 	g.dump()
-	for k := 0; k < 40 && g.n < n; k++ {
+	// where the scripted scenarios go: key rotation in every episode, expiry in every C episode and (a real wait of
+	// up to 4 s) in every other O episode
+	rotAt, expAt := rng.Intn(36), -1
+	if mode == "C" || (rng.Intn(2) == 0 && !g.oskipExp) {
+		expAt = rng.Intn(36)
+	}
+	for k := 0; k < 36 && g.n < n; k++ {
+		if k == rotAt {
+			t, victim := g.rotationScenario()
+			if rng.Intn(2) == 0 {
+				g.staleSiege(t, victim)
+			}
+			g.okeys(pick(rng, []string{"k1", "k1k2", "k1k2"}))
+			g.replayAll(t, victim)
+			g.dump()
+		}
+		if k == expAt {
+			t, victim := g.expiryScenario(mode)
+			if rng.Intn(2) == 0 && !g.oskipExp {
+				g.staleSiege(t, victim)
+			}
+		}
+		if q := rng.Intn(100); q < 20 {
+			switch {
+			case q < 5:
+				// mint, keep, use
+				exp, nbf := "", ""
+				if mode == "C" {
+					exp, nbf = pick(rng, []string{"", "", "s", "e"}), pick(rng, []string{"", "", "l", "m"})
+				}
+				t := g.omint(rng.Intn(4) > 0, g.osubject(), exp, nbf, "")
+				g.tuse(t, rng.Intn(3), g.tr(), g.someLogin())
+			case q < 11 || (q < 15 && mode != "C"):
+				if len(g.toks) > 0 {
+					g.tuse(g.toks[len(g.toks)-1-rng.Intn(min(len(g.toks), 6))], rng.Intn(3), g.tr(), g.someLogin())
+				}
+			case q < 15:
+				g.op(fmt.Sprintf("oclock %d", pick(rng, []int{1, 1, 2, 3, 59, 299, 300, 301, 3596, 3599, 3600, 3601, 7200})))
+			case q < 18:
+				g.okeys(pick(rng, []string{"k1", "k1", "k2", "k1k2", "none", "fail"}))
+			default:
+				t := g.omint(true, g.osubject(), "", "", "k2")
+				g.tuse(t, rng.Intn(3), g.tr(), g.someLogin())
+			}
+			g.dump()
+			continue
+		}
 		r := rng.Intn(100)
 		switch {
 		case r < 14:
